@@ -131,6 +131,8 @@ LastTopOpen(ts) ==   \* type of the last top-level block of a stream
     LET tops == {i \in DOMAIN ts : ts[i].lv = 0 /\ ts[i].n >= 0} IN
     IF tops = {} THEN "" ELSE ts[CHOOSE i \in tops : \A j \in tops : j <= i].ty
 ListTypes == {"bullet_list_open", "ordered_list_open"}
+CertainlyClosed == {"paragraph_open", "heading_open", "hr", "blockquote_open", "bullet_list_open",
+                    "ordered_list_open", "code_block", "table_open"}
 
 ConcatLaw ==
     LET A1 == Tr.a1 AP == Tr.ap B == Tr.base AB == Tr.der
@@ -141,7 +143,13 @@ ConcatLaw ==
     ELSE IF B.lines = <<>> \/ B.lines[1] = <<>> \/ B.lines[1][1] = 32 THEN "skip:B_not_at_column_0"
     ELSE IF AB.lines # A1.lines \o B.lines THEN "harness:derived_document"
     ELSE IF ~(Len(AP.toks) = na + 3 /\ SeqDiff(SubSeq(AP.toks, 1, na), A1.toks, FALSE) = ""
-              /\ IsPara(AP.toks, na + 1, nA)) THEN "skip:A_not_closed"
+              /\ IsPara(AP.toks, na + 1, nA)) THEN
+         \* "A ends closed" is read off the implementation, as the statement defines it - except where
+         \* CommonMark leaves no choice: after a blank line a column-0 paragraph cannot continue a block of
+         \* one of the kinds below (only an unclosed fence / HTML block, or nothing but definitions, can
+         \* stay open), so an A of that kind that swallows or alters the probe IS the leak C07 forbids.
+         (IF LastTopOpen(A1.toks) \in CertainlyClosed THEN "closed_block_captures_following_paragraph"
+          ELSE "skip:A_not_closed")
     ELSE IF LastTopOpen(A1.toks) \in ListTypes /\ FirstTy(B.toks) \in ListTypes THEN "skip:list_list_seam"
     ELSE IF LastTopOpen(A1.toks) = "code_block" /\ FirstTy(B.toks) = "code_block" THEN "skip:code_code_seam"
     ELSE LET d == SeqDiff(AB.toks, A1.toks \o Shift(B.toks, nA), FALSE) IN
